@@ -1100,7 +1100,7 @@ theorem stabilise_spec (env : Env) (fuel : Nat) : Pres .debug (stabilise env fue
 
 /-! ## `set_max_height_allowed` (debug mode: the dropped buckets are asserted empty) -/
 
-def resizeQ (newMax : Nat) (q : Array (List Nat)) : Array (List Nat) :=
+def resizeQueues (newMax : Nat) (q : Array (List Nat)) : Array (List Nat) :=
   if q.size ≥ newMax + 1 then q.extract 0 (newMax + 1)
   else q ++ Array.replicate (newMax + 1 - q.size) []
 
@@ -1115,7 +1115,7 @@ theorem sum_length_of_all_empty (l : List (List Nat)) (h : ∀ x ∈ l, x = []) 
 
 theorem BucketsOK.resize {q : Array (List Nat)} {mk : Nat → Int} (hq : BucketsOK q mk) (newMax : Nat)
     (hempty : (q.toList.drop (newMax + 1)).all (·.isEmpty) = true) :
-    BucketsOK (resizeQ newMax q) mk ∧ bucketSum (resizeQ newMax q) = bucketSum q := by
+    BucketsOK (resizeQueues newMax q) mk ∧ bucketSum (resizeQueues newMax q) = bucketSum q := by
   have hE : ∀ h (hh : h < q.size), newMax + 1 ≤ h → q[h] = [] := by
     intro h hh hle
     rw [List.all_eq_true] at hempty
@@ -1125,7 +1125,7 @@ theorem BucketsOK.resize {q : Array (List Nat)} {mk : Nat → Int} (hq : Buckets
       simp
       congr 1; omega
     simpa using hempty _ this
-  unfold resizeQ
+  unfold resizeQueues
   split
   · rename_i hge
     have hsz : (q.extract 0 (newMax + 1)).size = newMax + 1 := by simp; omega
@@ -1199,7 +1199,7 @@ theorem setMaxHeightAllowed_spec (newMax : Nat) : Pres .debug (setMaxHeightAllow
   have hd : s.cfg.debug = true := h.2 rfl
   simp +zetaDelta only [hd, Bool.true_and, Bool.not_eq_true', Bool.not_eq_false] at hall
   obtain ⟨hb, hs⟩ := h.1.1.resize newMax (by simpa using hall)
-  unfold resizeQ at hb hs
+  unfold resizeQueues at hb hs
   simp +zetaDelta only [HWF, HeapOK]
   exact ⟨⟨hb, by rw [hs]; exact h.1.2⟩, fun _ => hd⟩
 /-! ## from the working form back to the property -/
